@@ -35,3 +35,18 @@ func VerifParams(svc *protogen.Service, m *protogen.Method) (path, query []strin
 	}
 	return
 }
+
+// VerifHasRequestBody reports whether the operation published for m declares a request body.
+func VerifHasRequestBody(svc *protogen.Service, m *protogen.Method) bool {
+	g := NewGenerator(FormatYAML)
+	g.processMethod(svc, m)
+	for pair := g.doc.Paths.PathItems.First(); pair != nil; pair = pair.Next() {
+		pi := pair.Value()
+		for _, op := range []*v3.Operation{pi.Get, pi.Post, pi.Put, pi.Delete, pi.Patch} {
+			if op != nil && op.RequestBody != nil {
+				return true
+			}
+		}
+	}
+	return false
+}
